@@ -117,7 +117,160 @@ func base(d string) gm.Schema {
 	for i := range s.Tables {
 		s.Tables[i].AutoIncStart = 0
 	}
+	inherit(&s)
 	return s
+}
+
+// genFeatures draws a table whose keys and indexes cover the part and index attributes the dialect can express:
+// composite / DESC / prefix (MySQL) primary-key parts, index parts with DESC, prefix and expressions, index type,
+// predicate, INCLUDE, uniqueness, comments; named and unnamed checks; a foreign key with every pair of actions.
+func genFeatures(t *rapid.T, d string) gm.Table {
+	ty := map[string][4]string{
+		"mysql":    {"bigint", "int", "varchar(255)", "text"},
+		"postgres": {"bigint", "integer", "character varying(255)", "text"},
+		"sqlite":   {"integer", "int", "varchar(255)", "text"},
+	}[d]
+	tb := gm.Table{Name: "features", Cols: []gm.Col{
+		{Name: "fid", Type: ty[0]}, {Name: "fa", Type: ty[1]}, {Name: "fb", Type: ty[0], Null: true},
+		{Name: "fs", Type: ty[2]}, {Name: "ftxt", Type: ty[3]},
+	}}
+	part := func(label string, cols []string) gm.Part {
+		c := rapid.SampledFrom(cols).Draw(t, label+"col")
+		p := gm.Part{Col: c, Desc: rapid.IntRange(0, 2).Draw(t, label+"desc") == 0}
+		if d == "mysql" && (c == "ftxt" || c == "fs" && rapid.Bool().Draw(t, label+"pfx")) {
+			p.Prefix = rapid.SampledFrom([]int{1, 10, 32}).Draw(t, label+"len") // a TEXT key part needs a prefix length
+		}
+		return p
+	}
+	distinct := func(label string, n int, cols []string) []gm.Part {
+		var out []gm.Part
+		used := map[string]bool{}
+		for i := 0; i < n; i++ {
+			p := part(fmt.Sprintf("%s%d", label, i), cols)
+			if !used[p.Col] {
+				used[p.Col] = true
+				out = append(out, p)
+			}
+		}
+		return out
+	}
+	pkCols := []string{"fid", "fa", "fs"}
+	if d == "mysql" {
+		pkCols = append(pkCols, "ftxt")
+	}
+	if d != "mysql" {
+		// PostgreSQL and SQLite primary keys have no per-part options in Atlas' model (the HCL primary_key block lists
+		// columns only and neither inspector ever produces DESC or prefix parts for them)
+		for _, p := range distinct("pk", rapid.IntRange(1, 2).Draw(t, "npk"), pkCols) {
+			tb.PK = append(tb.PK, gm.Part{Col: p.Col})
+		}
+	} else {
+		tb.PK = distinct("pk", rapid.IntRange(1, 3).Draw(t, "npk"), pkCols)
+	}
+	q := func(c string) string {
+		if d == "mysql" {
+			return "`" + c + "`"
+		}
+		return `"` + c + `"`
+	}
+	for i, n := 0, rapid.IntRange(0, 3).Draw(t, "nidx"); i < n; i++ {
+		ix := gm.Index{Name: fmt.Sprintf("fidx%d", i), Unique: rapid.IntRange(0, 2).Draw(t, "uniq") == 0}
+		ix.Parts = distinct(fmt.Sprintf("i%dp", i), rapid.IntRange(1, 3).Draw(t, "nparts"), []string{"fid", "fa", "fb", "fs", "ftxt"})
+		if d != "mysql" {
+			// TEXT columns are indexable without a prefix outside MySQL
+		}
+		if rapid.IntRange(0, 3).Draw(t, "expr") == 0 {
+			ix.Parts = append(ix.Parts, gm.Part{Expr: "(" + q("fa") + " + 1)", Desc: rapid.Bool().Draw(t, "exprdesc")})
+		}
+		switch d {
+		case "mysql":
+			ix.Type = rapid.SampledFrom([]string{"", "", "BTREE", "HASH"}).Draw(t, "itype")
+			if rapid.IntRange(0, 2).Draw(t, "icmt") == 0 {
+				ix.Comment = "index comment"
+			}
+		case "postgres":
+			ix.Type = rapid.SampledFrom([]string{"", "", "BTREE", "HASH", "BRIN", "GIST"}).Draw(t, "itype")
+			if rapid.IntRange(0, 2).Draw(t, "where") == 0 {
+				ix.Where = "(" + q("fa") + " > 0)"
+			}
+			if rapid.IntRange(0, 2).Draw(t, "incl") == 0 {
+				ix.Include = []string{"fb"}
+			}
+			if rapid.IntRange(0, 2).Draw(t, "icmt") == 0 {
+				ix.Comment = "index comment"
+			}
+		case "sqlite":
+			if rapid.IntRange(0, 2).Draw(t, "where") == 0 {
+				ix.Where = q("fa") + " > 0"
+			}
+		}
+		tb.Indexes = append(tb.Indexes, ix)
+	}
+	for i, n := 0, rapid.IntRange(0, 2).Draw(t, "nchk"); i < n; i++ {
+		ck := gm.Check{Expr: q("fa") + fmt.Sprintf(" > %d", i)}
+		if rapid.Bool().Draw(t, "cknamed") {
+			ck.Name = fmt.Sprintf("fck%d", i)
+		}
+		tb.Checks = append(tb.Checks, ck)
+	}
+	if rapid.Bool().Draw(t, "fk") {
+		acts := []string{"", "NO ACTION", "RESTRICT", "CASCADE", "SET NULL", "SET DEFAULT"}
+		tb.FKs = append(tb.FKs, gm.FK{Name: "ffk", Cols: []string{"fb"}, RefTable: "users", RefCols: []string{"id"},
+			OnUpdate: rapid.SampledFrom(acts).Draw(t, "fkupd"), OnDelete: rapid.SampledFrom(acts).Draw(t, "fkdel")})
+	}
+	if d != "sqlite" && rapid.Bool().Draw(t, "tcmt") {
+		tb.Comment = "features of keys and indexes"
+	}
+	if d == "mysql" {
+		// the table inherits the schema's character set; a column may state its own
+		switch rapid.IntRange(0, 3).Draw(t, "colcs") {
+		case 0:
+			tb.Cols[3].Charset, tb.Cols[3].Collation = "latin1", "latin1_bin"
+		case 1:
+			tb.Cols[3].Charset, tb.Cols[3].Collation = "utf8mb4", "utf8mb4_bin"
+		}
+		if rapid.IntRange(0, 3).Draw(t, "tblcs") == 0 {
+			tb.Charset, tb.Collation = "latin1", "latin1_swedish_ci"
+		}
+		// both attributes are stated the way an inspected or normalised schema carries them; what equals the inherited
+		// value is then removed like everywhere else in this check
+		one := gm.Schema{Charset: "utf8mb4", Collation: "utf8mb4_0900_ai_ci", Tables: []gm.Table{tb}}
+		inherit(&one)
+		tb = one.Tables[0]
+	}
+	return tb
+}
+
+// inherit removes a character set / collation that is stated on a table or column although it equals what the element
+// inherits from its parent: Atlas deliberately writes the attribute to HCL only when it differs from the parent's
+// (sqlx.Charset: "needs to be defined explicitly ... in case the element charset is different from its parent charset"),
+// so "stated but equal" and "inherited" are the same schema and only the latter survives the round trip.
+func inherit(s *gm.Schema) {
+	for i := range s.Tables {
+		t := &s.Tables[i]
+		if t.Charset == s.Charset {
+			t.Charset = ""
+		}
+		if t.Collation == s.Collation {
+			t.Collation = ""
+		}
+		tcs, tco := t.Charset, t.Collation
+		if tcs == "" {
+			tcs = s.Charset
+		}
+		if tco == "" {
+			tco = s.Collation
+		}
+		for j := range t.Cols {
+			c := &t.Cols[j]
+			if c.Charset == tcs {
+				c.Charset = ""
+			}
+			if c.Collation == tco {
+				c.Collation = ""
+			}
+		}
+	}
 }
 
 func genSchema(types map[string][]string) func(t *rapid.T) SCase {
@@ -148,7 +301,7 @@ func genSchema(types map[string][]string) func(t *rapid.T) SCase {
 			}
 			all.Cols = append(all.Cols, c)
 		}
-		s.Tables = append(s.Tables, all)
+		s.Tables = append(s.Tables, all, genFeatures(t, d))
 		return SCase{Dialect: d, S: s}
 	}
 }
@@ -203,6 +356,31 @@ func TestCheck(t *testing.T) {
 		}
 		sort.Strings(ts)
 		col.Class(c.Dialect + "/schema")
+		if ft := c.S.Table("features"); ft != nil {
+			for _, p := range ft.PK {
+				if p.Prefix > 0 {
+					col.Class(c.Dialect + "/pk-prefix-part")
+				}
+				if p.Desc {
+					col.Class(c.Dialect + "/pk-desc-part")
+				}
+			}
+			for _, ix := range ft.Indexes {
+				for _, p := range ix.Parts {
+					switch {
+					case p.Expr != "":
+						col.Class(c.Dialect + "/index-expr-part")
+					case p.Prefix > 0:
+						col.Class(c.Dialect + "/index-prefix-part")
+					case p.Desc:
+						col.Class(c.Dialect + "/index-desc-part")
+					}
+				}
+				if ix.Type != "" {
+					col.Class(c.Dialect + "/index-type-" + ix.Type)
+				}
+			}
+		}
 		col.NonTrivial(fmt.Sprintf("%s|%s", c.Dialect, strings.Join(ts, ",")))
 		col.Sample(c.Dialect+"/schema", SCase{Dialect: c.Dialect, S: gm.Schema{Tables: c.S.Tables[len(c.S.Tables)-1:]}})
 		return err
